@@ -106,6 +106,34 @@ def conn_case(c0, c1):
     return None
 
 
+def neuron_case(B0, B1, dt0, dt1, warm):
+    """a LIF driven for `warm` steps, then reconfigured through its batchsz / dt setters, against a freshly constructed
+    neuron of the new configuration: reported config, state at rest for every sample, then identical outputs"""
+    mk = lambda dt, B: LIF((3,), dt, rest_v=-60.0, reset_v=-65.0, thresh_v=-50.0, refrac_t=2.0, time_constant=20.0, resistance=1.0, batch_size=B)  # noqa: E731
+    inp = dict(kind="LIF", B0=B0, B1=B1, dt0=dt0, dt1=dt1, warm=warm)
+    a = mk(dt0, B0)
+    torch.manual_seed(3)
+    for _ in range(warm):
+        a(torch.rand(B0, 3) * 40)
+    a.batchsz = B1
+    a.dt = dt1
+    b = mk(dt1, B1)
+    if a.batchsz != B1 or abs(a.dt - dt1) > 1e-12:
+        return {"what": "C14/LIF/reported_configuration", "input": inp, "expected": [B1, dt1], "actual": [a.batchsz, a.dt]}
+    if B1 != B0:
+        for name in ("voltage", "refrac", "spike"):
+            va, vb = getattr(a, name), getattr(b, name)
+            if va.shape != vb.shape or not torch.equal(va.to(vb.dtype), vb):
+                return {"what": f"C14/LIF/{name}_after_batch_resize_is_not_rest", "input": inp, "expected": vb.flatten().tolist()[:6], "actual": va.flatten().tolist()[:6]}
+        torch.manual_seed(5)
+        for t in range(6):
+            x = torch.rand(B1, 3) * 40
+            ya, yb = a(x), b(x)
+            if not torch.equal(ya, yb) or not torch.allclose(a.voltage, b.voltage, atol=1e-6):
+                return {"what": "C14/LIF/outputs_after_batch_resize", "input": dict(inp, step=t), "expected": yb.flatten().tolist()[:6], "actual": ya.flatten().tolist()[:6]}
+    return None
+
+
 def sweep(tier="quick", seed=0, unsupported=()):
     failures, cases = [], 0
     cfgs = [(1.0, 0.0, 1), (1.0, 2.0, 3), (0.5, 2.6, 1), (1.3, 2.6, 3), (2.0, 5.0, 2), (4.0, 5.0, 1)]
@@ -131,7 +159,12 @@ def sweep(tier="quick", seed=0, unsupported=()):
     for c0, c1 in itertools.product(cfgs[:4], repeat=2):
         cases += 1
         add(conn_case(c0, c1))
-    return {"standins": [{"function": "synapses / reducers / LinearDense: setter-built vs fresh component (reported config, record sizes, outputs and max-delay reads from a cleared state)", "domain": f"{len(cfgs)}^2 (dt,delay,batch) pairs x 4 setter orders x 4 synapses; 36 reducer pairs x 3 orders x 2 classes; connection dt/batchsz/synapse setters", "cases": cases, "proved": False, "label": "bounded"}], "failures": failures}
+    for B0, B1 in ((1, 3), (3, 1), (2, 4), (2, 2)):
+        for dt0, dt1 in ((1.0, 1.0), (1.0, 0.5)):
+            for warm in (0, 5):
+                cases += 1
+                add(neuron_case(B0, B1, dt0, dt1, warm))
+    return {"standins": [{"function": "LIF batchsz/dt setters after a warm-up vs a fresh neuron; synapses / reducers / LinearDense: setter-built vs fresh component (reported config, record sizes, outputs and max-delay reads from a cleared state)", "domain": f"{len(cfgs)}^2 (dt,delay,batch) pairs x 4 setter orders x 4 synapses; 36 reducer pairs x 3 orders x 2 classes; connection dt/batchsz/synapse setters", "cases": cases, "proved": False, "label": "bounded"}], "failures": failures}
 
 
 def replay(contract, label, model, note=""):
